@@ -166,6 +166,7 @@ def gen_reset(rng: random.Random, tier: str) -> dict:
     return {
         "program": prog,
         "reset_after": rng.choice(["complete", "complete", "paused"]),
+        "more_resets": rng.choice([0, 0, 1, 2]),
         "pause_at": rng.randrange(0, max(1, n_events)),
         "second_run_control": rng.random() < 0.5,
         # user-level clean-up between the first run and reset(): cancel some of the (old) pre-run event
@@ -555,6 +556,15 @@ def run_reset(case: dict) -> Result:
             sim.run()
             while sim.control.is_paused:
                 sim.control.resume()
+            # further reset + run rounds: each must again equal the fresh run
+            for _ in range(int(case.get("more_resets") or 0)):
+                if key_log(rr, rr.log[n1:]) != box["first"]:
+                    break
+                n1 = len(rr.log)
+                sim.control.reset()
+                sim.run()
+                while sim.control.is_paused:
+                    sim.control.resume()
             box["second"] = key_log(rr, rr.log[n1:])
 
         status = p.run(None, go)
@@ -583,7 +593,7 @@ def run_reset(case: dict) -> Result:
         res.add(
             "reset-replay-differs",
             "SimulationControl",
-            shape + "-after-" + case["reset_after"],
+            shape + "-after-" + case["reset_after"] + ("-repeated-reset" if case.get("more_resets") else ""),
             f"first difference at {i}: after reset {a[i] if i < len(a) else None} vs original {b[i] if i < len(b) else None}",
         )
     res.nontrivial = len(b) >= 10
